@@ -107,6 +107,9 @@ def run(p, report, tier):
     report.rule("R11.3", "the cost matrix is permuted on both axes by the same argsort(classes)", floor=1)
     report.rule("R11.4", "SklearnClassifier.predict_proba writes the estimator's columns at "
                 "searchsorted(classes_, estimator_.classes_[...])", floor=1)
+    report.rule("R11.5", "in predict / predict_proba / predict_freq a raw constructor parameter that has a validated "
+                "counterpart <p>_ (cost_matrix_, classes_, class_prior_, ...) is used only introspectively (is None, "
+                "isinstance, signature, messages), never as an operand of the decision", floor=5)
     report.rule("R1.7", "definite assignment in predict / predict_proba / predict_freq of all classifiers", floor=10)
     classes = classifier_classes(p)
     if len(classes) < 7:
@@ -192,6 +195,40 @@ def run(p, report, tier):
                             okm = True
                             why = f"columns `{col}` = {txt[:70]}"
     report.add("R11.4", sp.qual, "estimator columns re-mapped onto classes_", f"{sp.file}:{sp.node.lineno}", okm, detail=why)
+    # ---------------- R11.5 validated counterparts
+    seen = set()
+    for ci in classes:
+        stored = set()
+        for k in p.mro(ci):
+            if isinstance(k, ClassInfo):
+                for m in k.methods.values():
+                    for n in ast.walk(m.node):
+                        if isinstance(n, ast.Attribute) and isinstance(n.ctx, ast.Store) and isinstance(n.value, ast.Name) \
+                                and n.value.id == "self":
+                            stored.add(n.attr)
+        params = {a for a in p.init_stored_attrs(ci) if a + "_" in stored}
+        for mname in ("predict", "predict_proba", "predict_freq"):
+            f = p.find_method(ci, mname)
+            if f is None or id(f.node) in seen or is_abstract(f):
+                continue
+            seen.add(id(f.node))
+            pm = {}
+            for n in ast.walk(f.node):
+                for ch in ast.iter_child_nodes(n):
+                    pm[ch] = n
+            bad = []
+            nuse = 0
+            for n in ast.walk(f.node):
+                if isinstance(n, ast.Attribute) and isinstance(n.value, ast.Name) and n.value.id == "self" \
+                        and n.attr in params and isinstance(n.ctx, ast.Load):
+                    nuse += 1
+                    if not _introspective_use(n, pm):
+                        bad.append(n)
+            report.add("R11.5", f.qual, "raw parameters with a validated counterpart are not used as operands",
+                       f"{f.file}:{f.node.lineno}", not bad,
+                       detail=f"{nuse} introspective use(s) only" if not bad else
+                       "; ".join(f"self.{b.attr} used at line {b.lineno} instead of self.{b.attr}_ (validated / permuted to the order of classes_)" for b in bad),
+                       nontrivial=nuse > 0)
     # ---------------- definite assignment
     seen = set()
     for ci in classes:
@@ -210,6 +247,30 @@ def run(p, report, tier):
                        detail=("; ".join(f"{k} unbound" for k in reports)) or (("infeasible residual: " + exc) if exc else ""))
     report.assumptions += ["finiteness, non-negativity and row sums equal to one as numbers are not decided",
                            "the wrapped estimator's predict returns class labels and its predict_proba is row-normalised"]
+
+
+def _introspective_use(node, pm):
+    """`self.p is None`, isinstance/hasattr/inspect.signature/has_fit_parameter
+    arguments and message formatting do not compute with the value."""
+    n = node
+    while n in pm:
+        par = pm[n]
+        if isinstance(par, ast.Compare) and any(isinstance(c, ast.Constant) and c.value is None
+                                                for c in [par.left] + par.comparators):
+            return True
+        if isinstance(par, (ast.JoinedStr, ast.FormattedValue)):
+            return True
+        if isinstance(par, ast.Call):
+            fn = c01.callname(par)
+            if fn in ("isinstance", "hasattr", "signature", "has_fit_parameter", "check_is_fitted", "format",
+                      "is_classifier", "is_regressor", "getattr", "callable", "type"):
+                return True
+            if not (isinstance(n, ast.Attribute) and par.func is n):
+                return False
+        if isinstance(par, ast.stmt):
+            return False
+        n = par
+    return False
 
 
 class _IdxFlow(MustAnalysis):
